@@ -109,6 +109,15 @@ theorem C18_status_conservative (text : List Char) (pairs : List (String × Stri
         intro hm; exact this _ hm rfl
       · revert h; decide
 
+/-- a failed status query decides nothing: no batch is treated as finished (or as anything) -/
+theorem C18_query_failure_decides_nothing (pairs : List (String × String)) (id : String) :
+    checkStatusQ false pairs id = .error .execError ∧ hpcIsCompleteQ false pairs id = .error .execError := by
+  simp [hpcIsCompleteQ, checkStatusQ, collectorPropagatesQueryFailure, Except.map]
+
+/-- …and with a successful query it is the plain lookup -/
+theorem C18_query_ok (pairs : List (String × String)) (id : String) :
+    checkStatusQ true pairs id = .ok (checkStatus pairs id) := by simp [checkStatusQ]
+
 /-- The parsed listing is exactly the non-empty lines, each with exactly two fields. -/
 theorem C18_parse_exact (text : List Char) (pairs : List (String × String))
     (hp : parseSqueue text = .ok pairs) :
